@@ -5,6 +5,10 @@ import json, os
 ENV = "GOFLAGS=-mod=mod GOPROXY=off GOSUMDB=off GOTOOLCHAIN=local"
 CHECKS = {
  # id: (category, technique, design_ref, text, note)
+ "C01": ("exploration", "runtime monitoring: exhaustive single-bit mutation of the signed regions + one-link-broken forgeries + random mutation, judged by must-reject oracle and an independent Authentic(q) reference predicate",
+         "DESIGN.md §3 C01",
+         "Held on every executed case: all single-bit mutants of header, TD body, attestation key, QE report and auth data of 4+ accepted quotes must be rejected; ~45 structured forgeries that break exactly one link while everything else is re-signed with keys the harness owns must be rejected at 3 option levels through raw and message entry forms (each derived from a twin the library accepted); for signature/chain flips and random mutants 'accepted => reference says authentic'. Exhaustive only over the stated bit/class space; sound up to ECDSA unforgeability.",
+         "Trusts crypto/ecdsa, crypto/x509, encoding/pem. A forged quote needing a signature the harness cannot make (2^-128) is out of reach."),
  "C11": ("exploration", "runtime monitoring: must-accept oracle + independent reference verifier over generated honest worlds",
          "DESIGN.md §3 C11",
          "Held on every executed honest world: each world (fresh PKI, randomised quote shape, SVNs, level lists, masks, CRLs, five instants) is verified by the real library at 3 checking levels through 4 entry forms and must be accepted; the independent reference verifier must agree. Sampling, not proof: completeness for honest inputs is the right target because any over-strict comparison (>, off-by-one, rejected NUL/extra bytes) shows up as a rejected honest world.",
